@@ -324,7 +324,9 @@ pub fn gen_mapping(rng: &mut Rng, cfg: &GenCfg) -> Vec<u8> {
                     let os = line_no(rng, cfg);
                     line.push_str(&format!(":{}", os));
                     if kind >= 3 {
-                        let oe = if rng.chance(1, 3) {
+                        let oe = if rng.chance(1, 30) {
+                            os.saturating_sub(rng.range(1, 6)).max(1) // inverted original range
+                        } else if rng.chance(1, 3) {
                             os
                         } else if rng.chance(1, 2) {
                             os + (e_line.saturating_sub(s))
